@@ -385,6 +385,36 @@ func (c *c07) run(pc PReadCase, doc []byte, newDoc bool, expect *PVal) {
 			return r
 		})
 	}
+	// DOM loading: a repeated field loaded into a tree has one child per element, each spanning that element's bytes
+	guardP("PN.Load", func() PRes {
+		single := root.GetByPath(ps...)
+		r := c.observe(single, "PN.Load", items, true)
+		if r.St != "found" || r.NK != "list" {
+			return r
+		}
+		n, err := single.Len()
+		if err != nil {
+			return r
+		}
+		for _, recurse := range []bool{true, false} {
+			pn := pgen.PathNode{Node: single.Node}
+			if err := pn.Load(recurse, &pgen.Options{}, single.Desc); err != nil {
+				r.St, r.Note = "err", "Load: "+err.Error()
+				return r
+			}
+			if len(pn.Next) != n {
+				r.NK, r.Note = "unexpected", fmt.Sprintf("Load(%v): %d children for %d elements", recurse, len(pn.Next), n)
+				return r
+			}
+			for i := range pn.Next {
+				if e := single.Index(i); e.IsError() || string(e.Raw()) != string(pn.Next[i].Node.Raw()) || e.Type() != pn.Next[i].Node.Type() {
+					r.NK, r.Note = "unexpected", fmt.Sprintf("Load(%v): child %d is not element %d", recurse, i, i)
+					return r
+				}
+			}
+		}
+		return r
+	})
 	if np, ok := c.nameItems(items); ok {
 		nps := make([]pgen.Path, len(np))
 		for i, it := range np {
